@@ -44,6 +44,15 @@ CLAIMED = {
              "bit-exact correspondence of stats.cpp (statistics, scale, upscale, affine conversion, iterators) at Float, Eigen products within 1e-12 of the summed terms; "
              "independent oracle with exact rational statistics.",
         note=NOTE_COMMON + "sqrt enters the proofs as a value sd >= 0 with sd*sd = var; linear_t::fit itself is not executed (only its scaling-related calls)."),
+    "C09": dict(
+        category="proof", technique=TECH, design="DESIGN.md §4 C09",
+        text="The map-reduce skeleton of the ML objectives (chunks of the sample range, any chunk->worker assignment, per-worker accumulators, sum_reduce, "
+             "division by the sample count) and the linear (incl. the l1/l2 terms as coded), gboost bias, scale (unassigned samples unscaled, per-group gradients) "
+             "and grads objectives are proved equal to their defining formulas for every loss, dataset, batch >= 1, worker count and assignment, with the "
+             "assignment / batch independence corollaries (22 theorems, exact arithmetic). Correspondence: linear/function.cpp, gboost/function.cpp, accumulators and "
+             "iterators on in-memory datasets over threads x batch x cache, with the chunk->worker schedule actually observed through the pool hook fed to the model; "
+             "1e-9 relative (the property's tolerance); independent python oracle with its own loss kernels.",
+        note=NOTE_COMMON + "Floating-point re-association is bounded only empirically by the 1e-9 tolerance; the loss kernels belong to C06, served data to C08/C14; data races are outside (C18)."),
 }
 
 PENDING = "check under construction in this session; not claimed until its quick check is green on the unchanged tree at several seeds"
